@@ -58,6 +58,8 @@ class Net:
             self.listeners[ls.addr] = ls
             return ls
         if connect is not None:
+            if isinstance(connect, tuple) and not (isinstance(connect[0], str) and isinstance(connect[1], int)):
+                raise TypeError("str, bytes or bytearray expected, not %s" % type(connect[0]).__name__)      # as socket.connect does
             addr = tuple(connect[:2]) if isinstance(connect, tuple) else (connect, 0)
             ls = self.listeners.get(addr)
             if ls is None or ls.closed:
